@@ -22,7 +22,11 @@ Deterministic fakes
     CoordinateSearch               small deterministic qiskit_algorithms Optimizer (no randomness, fixed nfev pattern)
     SERIAL                         a shared 1-worker ThreadPoolExecutor
 EVQE helpers
-    random_evqe_setup(rng, ...)    a small random EVQE configuration (JSON-able dict) ; build_evqe(setup) -> solver & call
+    random_evqe_setup(rng, ...)    a small random EVQE configuration (JSON-able dict)
+    build_evqe(setup)              the real EVQEMinimumEigensolver for it (-> solver, call, parts)
+    build_package_solver(setup)    base-class solver from the package's speciation/selection operators with a fixed seeded
+                                   initial population (individuals recur from solve to solve of the same solver)
+    evqe_problem(solver, setup, p) another problem (operator / initial state / aux) for the same solver object
     individual_key(ind)            structural, hash-seed independent identity of an EVQEIndividual
 
 Event vocabulary (JSON-able, shared with the Coq side `QV.Solver.SolverCheck`):
@@ -82,6 +86,14 @@ class Recorder:
         self.items: list = []
         self._lock = threading.Lock()
         self.last_estimate: dict = {}
+        self.evaluator = None   # the circuit evaluator the operators of the recorded solve were handed
+
+    def reset(self):
+        """Forget everything (before the next solve of the same instrumented solver)."""
+        with self._lock:
+            self.items = []
+            self.last_estimate = {}
+            self.evaluator = None
 
     def add(self, *item):
         with self._lock:
@@ -187,11 +199,14 @@ class Registry:
     structural key (first seen first numbered), populations by object identity."""
 
     def __init__(self, key=None):
+        self._key = key or individual_key
+        self.reset()
+
+    def reset(self):
         self.results: list = []
         self.ind_ids: dict = {}
         self.individuals: list = []
         self.pops: list = []
-        self._key = key or individual_key
 
     def result_id(self, r) -> int:
         for i, x in enumerate(self.results):
@@ -259,6 +274,8 @@ def instrument_solver(solver: EvolvingAnsatzMinimumEigensolver, rec: Recorder, r
             return e
 
         def apply(population, operator_context, _k=k, _real=real_apply):
+            if rec.evaluator is None:
+                rec.evaluator = operator_context.circuit_evaluator
             st = peek_loop_state(operator_context)
             rec.add("start", _k, registry.population_id(population), st["ledger"], st["n_generations"], rec.last_estimate.get(_k))
             tap = _ContextTap(operator_context, rec, registry)
@@ -614,8 +631,9 @@ class CoordinateSearch(Optimizer):
 
 
 # =============================================================================================== EVQE helpers
-def random_evqe_setup(rng, quick: bool = True) -> dict:
-    """A small random EVQE configuration as a JSON-able dict (see build_evqe)."""
+def random_evqe_setup(rng, quick: bool = True, family: Optional[str] = None) -> dict:
+    """A small random EVQE configuration as a JSON-able dict (see build_evqe / build_package_solver);
+    family: "evqe" | "package" | None (random)."""
     n_qubits = rng.choice([1, 2, 2, 2, 3] if not quick else [1, 2, 2])
     evaluator = rng.choice(["estimator", "sampler", "bitstring"])
     pop = rng.randint(2, 4 if quick else 6)
@@ -646,6 +664,17 @@ def random_evqe_setup(rng, quick: bool = True) -> dict:
         alpha=rng.choice([1, 1, 0.5]),
         shots=64,
     )
+    # family "package": base configuration around the package's own speciation/selection with a fixed seeded initial
+    # population.  `more`: further problems solved afterwards with the SAME solver object (other operator, other initial
+    # state, other aux form): the result of every solve has to be consistent with its own history.
+    setup["family"] = family or rng.choice(["evqe", "evqe", "package"])
+    if setup["family"] == "package" and setup["max_generations"] is None and setup["criterion"] is None:
+        setup["max_generations"] = rng.randint(1, 3)   # selection alone may report too few evaluations to hit a budget
+    if setup["family"] == "package" or rng.random() < 0.4:
+        setup["more"] = [dict(coeffs=[rng.choice([-2.0, -1.0, 0.5, 1.0, 1.5]) for _ in range(4)], init=rng.choice([None, "x0", "h0"]),
+                              aux=rng.choice([None, "list", "dict"]))]
+    else:
+        setup["more"] = []
     return setup
 
 
@@ -659,14 +688,50 @@ def _hamiltonian(n: int, coeffs):
     return SparsePauliOp.from_list(terms)
 
 
+def _init_circuit(n: int, kind):
+    if kind is None:
+        return None
+    init = QuantumCircuit(n)
+    if kind == "x0":
+        init.x(0)
+    else:  # "h0": does not commute with the ansatz gates, so the order of composition matters
+        init.h(0)
+        if n > 1:
+            init.cx(0, 1)
+    return init
+
+
+def evqe_problem(solver, setup: dict, problem: Optional[dict] = None):
+    """The problem (operator, aux operators, initial state) of `setup`, optionally overridden by `problem`
+    (keys coeffs / init / aux), as a call on `solver`.  Returns (call, parts): call() runs the public compute_* method
+    matching setup["evaluator"]; parts = dict(operator, aux, init)."""
+    p = dict(coeffs=setup["coeffs"], init=setup["init"], aux=setup["aux"])
+    p.update(problem or {})
+    n, c = setup["n_qubits"], p["coeffs"]
+    init = _init_circuit(n, p["init"])
+    if setup["evaluator"] == "bitstring":
+        w = [c[i % len(c)] for i in range(n)]
+        mkb = lambda shift: BitstringEvaluator(n, lambda b, _s=shift: float(sum(w[i] for i, ch in enumerate(b) if ch == "1") + _s))
+        op = mkb(0.0)
+        auxes = [mkb(1.0), mkb(-2.0)]
+    else:
+        op = _hamiltonian(n, c)
+        auxes = [_hamiltonian(n, c[1:] + c[:1]), _hamiltonian(n, [1.0, 0.0, 0.0])]
+    aux = {None: None, "list": auxes, "list0": [], "dict": {"first": auxes[0], "second": auxes[1]}}[p["aux"]]
+
+    def call():
+        if setup["evaluator"] == "bitstring":
+            return solver.compute_minimum_function_value(operator=op, aux_operators=aux, initial_state_circuit=init)
+        return solver.compute_minimum_eigenvalue_with_initial_state(operator=op, aux_operators=aux, initial_state_circuit=init)
+
+    return call, dict(operator=op, aux=aux, init=init)
+
+
 def build_evqe(setup: dict, criterion=None):
     """Build the real EVQEMinimumEigensolver for `setup` with the deterministic fakes.
-    Returns (solver, call, parts) where call() runs the appropriate public compute_* method and parts holds the
-    operator, the aux operators, the initial-state circuit, the sampler and a function objective(op, circuit) that
-    evaluates any of the operators on a bound circuit the way the configured evaluator kind defines it."""
+    Returns (solver, call, parts) — call/parts as evqe_problem(solver, setup)."""
     from queasars.minimum_eigensolvers.evqe.evqe import EVQEMinimumEigensolver, EVQEMinimumEigensolverConfiguration
 
-    n = setup["n_qubits"]
     sampler = ExactSampler()
     est = ConfiguredEstimatorV2(estimator=exact_estimator(), precision=0.0) if setup["evaluator"] == "estimator" else None
     cfg = EVQEMinimumEigensolverConfiguration(
@@ -695,29 +760,44 @@ def build_evqe(setup: dict, criterion=None):
         mutually_exclusive_primitives=setup["mutex"],
     )
     solver = EVQEMinimumEigensolver(cfg)
-    init = None
-    if setup["init"] == "x0":
-        init = QuantumCircuit(n)
-        init.x(0)
-    elif setup["init"] == "h0":
-        init = QuantumCircuit(n)
-        init.h(0)
-        if n > 1:
-            init.cx(0, 1)
-    c = setup["coeffs"]
-    if setup["evaluator"] == "bitstring":
-        w = [c[i % len(c)] for i in range(n)]
-        mkb = lambda shift: BitstringEvaluator(n, lambda b, _s=shift: float(sum(w[i] for i, ch in enumerate(b) if ch == "1") + _s))
-        op = mkb(0.0)
-        auxes = [mkb(1.0), mkb(-2.0)]
-    else:
-        op = _hamiltonian(n, c)
-        auxes = [_hamiltonian(n, c[1:] + c[:1]), _hamiltonian(n, [1.0, 0.0, 0.0])]
-    aux = {None: None, "list": auxes, "list0": [], "dict": {"first": auxes[0], "second": auxes[1]}}[setup["aux"]]
+    call, parts = evqe_problem(solver, setup)
+    return solver, call, parts
 
-    def call():
-        if setup["evaluator"] == "bitstring":
-            return solver.compute_minimum_function_value(operator=op, aux_operators=aux, initial_state_circuit=init)
-        return solver.compute_minimum_eigenvalue_with_initial_state(operator=op, aux_operators=aux, initial_state_circuit=init)
 
-    return solver, call, dict(operator=op, aux=aux, init=init, sampler=sampler)
+def build_package_solver(setup: dict, criterion=None):
+    """A real EvolvingAnsatzMinimumEigensolver assembled through the public base configuration from the package's own
+    operators: EVQESpeciation, EVQESelection and (setup["p_topo"] > 0) EVQETopologicalSearch, with a population
+    initializer that returns the SAME seeded random population for every solve — the configuration in which the
+    individuals of one solve recur in the next solve of the same solver object.  Same setup keys as build_evqe.
+    Returns (solver, call, parts)."""
+    from queasars.minimum_eigensolvers.evqe.evolutionary_algorithm.mutation import EVQETopologicalSearch
+    from queasars.minimum_eigensolvers.evqe.evolutionary_algorithm.population import EVQEPopulation
+    from queasars.minimum_eigensolvers.evqe.evolutionary_algorithm.selection import EVQESelection
+    from queasars.minimum_eigensolvers.evqe.evolutionary_algorithm.speciation import EVQESpeciation
+
+    ops = [
+        EVQESpeciation(genetic_distance_threshold=setup["distance"], random_seed=setup["seed"] + 1),
+        EVQESelection(alpha_penalty=0.1, beta_penalty=0.1, use_tournament_selection=setup["tournament"],
+                      tournament_size=setup["tournament_size"], random_seed=setup["seed"] + 2),
+    ]
+    if setup["p_topo"] > 0:
+        ops.append(EVQETopologicalSearch(mutation_probability=setup["p_topo"] / 2, random_seed=setup["seed"] + 3))
+    est = ConfiguredEstimatorV2(estimator=exact_estimator(), precision=0.0) if setup["evaluator"] == "estimator" else None
+    cfg = EvolvingAnsatzMinimumEigensolverConfiguration(
+        population_initializer=lambda n_qubits: EVQEPopulation.random_population(
+            n_qubits=n_qubits, n_layers=setup["n_initial_layers"], n_individuals=setup["population_size"],
+            randomize_parameter_values=True, random_seed=setup["seed"]),
+        evolutionary_operators=ops,
+        configured_sampler=ConfiguredSamplerV2(sampler=ExactSampler(), shots=setup["shots"]),
+        configured_estimator=est,
+        pass_manager=_pass_manager(),
+        max_generations=setup["max_generations"],
+        max_circuit_evaluations=setup["max_evals"],
+        termination_criterion=criterion,
+        parallel_executor=ThreadPoolExecutor(max_workers=setup["workers"]),
+        distribution_alpha_tail=setup["alpha"] if setup["evaluator"] != "estimator" else 1,
+        mutually_exclusive_primitives=setup["mutex"],
+    )
+    solver = EvolvingAnsatzMinimumEigensolver(cfg)
+    call, parts = evqe_problem(solver, setup)
+    return solver, call, parts
